@@ -237,7 +237,7 @@ func (h *BFDAuthHeader) Length() int {
 	case BFDAuthTypeKeyedSHA1, BFDAuthTypeMeticulousKeyedSHA1:
 		return 8 + len(h.Data)
 	default:
-		return 0
+		return 3
 	}
 }
 
